@@ -1,22 +1,28 @@
 #ifndef PARSER_MODEL_H
 #define PARSER_MODEL_H
-/* Harness-side construction of a ChaiScript_Parser object in an arbitrary valid cursor state (offsets from layout.h). */
+/* Harness-side image of a ChaiScript_Parser object in an arbitrary valid cursor state.  Typed (CBMC stays field-sensitive on
+   typed objects; a char[] image cost 100x the variables) and checked against the compiler-derived layout.h. */
 #include "bv_model.h"
-#define P_POSITION(p) ((p) + OFF_Parser_position)
-#define P_POS(p)  (*(char**)(P_POSITION(p) + OFF_Pos_pos))
-#define P_END(p)  (*(char**)(P_POSITION(p) + OFF_Pos_end))
-#define P_LINE(p) (*(int32_t*)(P_POSITION(p) + OFF_Pos_line))
-#define P_COL(p)  (*(int32_t*)(P_POSITION(p) + OFF_Pos_col))
-#define P_LASTCOL(p) (*(int32_t*)(P_POSITION(p) + OFF_Pos_last_col))
-#define P_DEPTH(p) (*(uint64_t*)((p) + OFF_Parser_current_parse_depth))
+struct position_model { int32_t line, col; char* pos; char* end; int32_t last_col; int32_t pad_; };
+struct parser_model { char* vptr; uint64_t depth; char* fname_obj; char* fname_ctl; struct vec3 match_stack; struct position_model position; char tail[SZ_Parser - OFF_Parser_position - SZ_Position + 8]; };
+_Static_assert(offsetof(struct parser_model, depth) == OFF_Parser_current_parse_depth && offsetof(struct parser_model, fname_obj) == OFF_Parser_filename &&
+               offsetof(struct parser_model, match_stack) == OFF_Parser_match_stack && offsetof(struct parser_model, position) == OFF_Parser_position &&
+               sizeof(struct position_model) == SZ_Position && offsetof(struct position_model, pos) == OFF_Pos_pos && offsetof(struct position_model, end) == OFF_Pos_end &&
+               offsetof(struct position_model, line) == OFF_Pos_line && offsetof(struct position_model, col) == OFF_Pos_col && offsetof(struct position_model, last_col) == OFF_Pos_last_col &&
+               sizeof(struct parser_model) >= SZ_Parser, "ChaiScript_Parser/Position layout changed: update parser_model.h");
+#define PM(p) ((struct parser_model*)(p))
+#define P_POS(p)  (PM(p)->position.pos)
+#define P_END(p)  (PM(p)->position.end)
+#define P_LINE(p) (PM(p)->position.line)
+#define P_COL(p)  (PM(p)->position.col)
+#define P_LASTCOL(p) (PM(p)->position.last_col)
+#define P_DEPTH(p) (PM(p)->depth)
 static struct sso_string parser_fname;
 static void parser_init(char* parser, char* buf, unsigned len, unsigned off, int32_t line, int32_t col, int32_t lastcol) {
-  memset(parser, 0, SZ_Parser);
   parser_fname.p = parser_fname.buf; parser_fname.n = 1; parser_fname.buf[0] = 'f'; parser_fname.buf[1] = 0;
-  *(char**)(parser + OFF_Parser_filename) = (char*)&parser_fname;       /* shared_ptr<std::string>: object pointer; control block null */
+  PM(parser)->fname_obj = (char*)&parser_fname;       /* shared_ptr<std::string>: object pointer; control block null */
   P_POS(parser) = len ? buf + off : (char*)0; P_END(parser) = len ? buf + len : (char*)0;
   P_LINE(parser) = line; P_COL(parser) = col; P_LASTCOL(parser) = lastcol;
 }
-/* eval_error construction/destruction is cut (pair): the message and trace carry nothing these harnesses read */
 int eval_error_ctor_calls;
 #endif
